@@ -77,7 +77,7 @@ def match_known(prop, key):
     for k in load_known():
         if k.get('status', 'open') != 'open':
             continue
-        if k['property'] == prop and k['key'] == key:
+        if k['property'] == prop and (k['key'] == key or (k['key'].endswith('*') and key.startswith(k['key'][:-1]))):
             return k
     return None
 
